@@ -31,6 +31,7 @@ def record_and_judge(tag, tier, n_quick=150, n_thorough=3000, max_objects=8):
     tr = os.path.join(w, "trace.ndjson")
     run_bin("c01", ["record", "--seed", vlib.seed(), "--n", n, "--max-objects", max_objects, "--out", tr])
     recs = read_ndjson(tr)
+    recs = add_sequential_loads(w, recs)
     bounds = [i for i, r in enumerate(recs) if r["ev"] == "Reset"]
     verdicts, states, trans = vlib.validate_trace("Trace_Lifecycle.tla", "Trace_Lifecycle.cfg", recs, tag,
                                                   boundaries=bounds, chunks=1 if tier == "quick" else 12)
@@ -38,6 +39,29 @@ def record_and_judge(tag, tier, n_quick=150, n_thorough=3000, max_objects=8):
     if len(verdicts) != expected:
         raise vlib.ToolError("trace validator judged %d of %d calls" % (len(verdicts), expected))
     return recs, verdicts, states, trans
+
+
+def add_sequential_loads(w, recs):
+    """every first-cycle saved file is also loaded by a lopdf built without the rayon feature (harness-seq);
+    the extra Load event follows the parallel build's Load and is judged against the same saved document"""
+    saves = [(i, r) for i, r in enumerate(recs) if r["ev"] == "Save" and r["res"] == "ok" and r.get("cycle") == 1]
+    fin, fout = os.path.join(w, "seq-in.ndjson"), os.path.join(w, "seq-out.ndjson")
+    vlib.write_ndjson(fin, [{"bytes": r["bytes"]} for _, r in saves])
+    run_bin("loadseq", [fin, fout], crate="harness-seq")
+    loaded = read_ndjson(fout)
+    if len(loaded) != len(saves):
+        raise vlib.ToolError("sequential loader answered %d of %d files" % (len(loaded), len(saves)))
+    extra = {}
+    for (i, r), l in zip(saves, loaded):
+        # insert after the Load that follows this Save (if any), else right after the Save
+        pos = i + 1 if i + 1 < len(recs) and recs[i + 1]["ev"] == "Load" else i
+        extra[pos] = {"ev": "Load", "case": r["case"], "cycle": r.get("cycle"), "seq": True, "res": l["res"], "doc": l["doc"]}
+    out = []
+    for i, r in enumerate(recs):
+        out.append(r)
+        if i in extra:
+            out.append(extra[i])
+    return out
 
 
 def negative_controls(tag, recs):
